@@ -5,7 +5,9 @@ def lockrule(n):
     return ("sub", "R8-lock", r"((?:self\s*\.\s*)?circuit)\s*\.\s*lock\(\)\s*\.\s*await", r"vx_lock(&\1, Tracked(tr))", n)
 WRAP = lambda op: dict(file="lib", rules=[lockrule(1), ("addarg", [op], TR, 1), ("inject", None, "start", "broadcast use lemma_counts_push;")])
 CALL = [
-    ("R4",), lockrule(None), ("R3",), ("R5",),
+    ("R4",), lockrule(None), ("R3",),
+    ("sub", "R5-traced", r"(?:std::time::)?Instant::now\(\)", "vx_now(clk, Tracked(tr))", -1),
+    ("sub", "R5-traced", r"\bstart\.elapsed\(\)", "vx_elapsed(clk, start, Tracked(tr))", -1),
     ("addarg", ["call", "try_acquire", "record_failure", "record_success"], TR, 4),
     ("R10e", None),
     ("inject", None, "start", "broadcast use lemma_counts_push;"),
